@@ -29,6 +29,10 @@ class World:
             return ASTNode
         return getattr(self.mod, self.pre + name)
 
+    def zi_name(self, o) -> str:
+        n = type(o).__name__
+        return n[len(self.pre):] if self.pre and n.startswith(self.pre) else n
+
     def prop_value(self, c: str, f: dict, atom: int, variant: int = 0):
         if (c, f["n"]) in P.FIXED:
             return P.FIXED[(c, f["n"])]
